@@ -190,16 +190,19 @@ fn map_region(r: &Region, errors: &mut Vec<String>) {
     unsafe {
         match r.fill {
             Fill::Keep => {}
-            Fill::Zero => std::ptr::write_bytes(r.addr as *mut u8, 0, r.len as usize),
+            // (through libc: a region may legitimately sit at address 0, which Rust's own pointer
+            // operations refuse to touch)
+            Fill::Zero => {
+                libc::memset(r.addr as *mut libc::c_void, 0, r.len as usize);
+            }
             Fill::Pattern => {
-                for a in r.addr..r.addr + r.len {
-                    *(a as *mut u8) = vh::rng::pat(a);
-                }
+                let buf: Vec<u8> = (r.addr..r.addr + r.len).map(vh::rng::pat).collect();
+                libc::memcpy(r.addr as *mut libc::c_void, buf.as_ptr() as *const libc::c_void, buf.len());
             }
         }
         for (addr, bytes) in &r.pokes {
             if *addr >= r.addr && addr + bytes.len() as u64 <= r.addr + r.len {
-                std::ptr::copy_nonoverlapping(bytes.as_ptr(), *addr as *mut u8, bytes.len());
+                libc::memcpy(*addr as *mut libc::c_void, bytes.as_ptr() as *const libc::c_void, bytes.len());
             } else {
                 errors.push(format!("poke {:x}+{} outside region {:x}+{:x}", addr, bytes.len(), r.addr, r.len));
             }
